@@ -216,12 +216,12 @@ class Machine:
         self.sites = {}          # (fn path, bb) -> {'kind', 'ok': visits decided true, 'unknown': visits with opaque operands, 'fail': visits decided false}
 
     # ------------------------------------------------------------------ entry
-    def run(self, body, args, holders=(), inst=None):
+    def run(self, body, args, holders=(), inst=None, gints=None):
         """args: values of the parameters; holders: values placed in the root holder frame (index 0), addressed by
         Ref(0, k)."""
         root = Frm(None, {k: v for k, v in enumerate(holders)})
         env = {i + 1: a for i, a in enumerate(args)}
-        st = State([root, Frm(body, env, 0, None, None, self._gints_of(body, None), None, inst or body.rec["path"])])
+        st = State([root, Frm(body, env, 0, None, None, tuple(gints) if gints is not None else self._gints_of(body, None), None, inst or body.rec["path"])])
         self.out = []
         work = [st]
         while work:
@@ -457,7 +457,7 @@ class Machine:
             pb = self.F.promoted.get((op.get("uneval_def"), op["promoted"]))
             if pb is not None:
                 sub = Machine(self.F, self.policy, self.models)
-                outs = sub.run(pb, [])
+                outs = sub.run(pb, [], gints=s.frames[fi].gints)       # a promoted of a const-generic function sees its parameter
                 if len(outs) == 1 and outs[0].kind == "return":
                     v = outs[0].value
                     # a promoted is a `&'static T`: keep the referent as a value
